@@ -6,14 +6,60 @@ META = dict(
     assumptions=['TODO'],
 )
 SRC = 'C17/h_store.cpp'
-SH = ['libc.c', 'rbtree.c', 'sync_seq.c', 'c17_stubs.c']
-MAP = ['--map', '^@malloc$=verif_c17_malloc', '--map', '^@free$=verif_c17_free']
+SH = ['libc.c', 'c17_rbtree.c', 'sync_seq.c', 'c17_stubs.c']
+# ir2c: ::malloc / ::free of the default IOAlloc -> harness stand-ins; symbolic-length memcpy -> rt/c17_stubs.c; methods that are not on
+# the single-reader inline-refill path stay out of the translation (rt/c17_stubs.c gives each a body that reports being reached)
+IR2C = ['--no-devirt', '--map', '^@malloc$=verif_c17_malloc', '--map', '^@free$=verif_c17_free', '--memcpy-n', 'verif_c17_memcpy_n',
+        '--stub', '^@_ZN7IStream(13readv_mutable|14writev_mutable)E',
+        '--stub', '^@_ZN6photon2fs11ICacheStore(18do_preadv2_mutable|11do_pwritev2|19do_pwritev2_mutable)E',
+        '--stub', '^@_ZN6photon2fs11ICacheStore12async_refillEPv$', '--stub', '^@_ZN(6photon2fs11ICacheStore|5Store|7SrcFile)D[02]Ev$']
+CLANG = ['-fno-builtin-memset']       # keep member-wise zero-initialisation as stores (a memset over a member block is modelled byte-wise by the solver)
+
+
+def us(cap, res, srcmax, extra=()):
+    """per-loop bounds: harness loops run over the source size; the loops of the code under test get the default (segments + 2).
+    push_back_more: c17_alloc hands out the whole refill buffer in one piece, the loop body is never entered;
+    preadv2 / try_refill_range `goto again` (retry after -EAGAIN): never taken by a single reader (no lock conflict, size unchanged).
+    Each of these bounds is checked by an unwinding assertion."""
+    n = srcmax + 1
+    L = ['f__ZN8iovector14push_back_moreEm.0:1', 'verif_c17_memcpy_n.0:13', 'c17_base_of.0:9',
+         'f__ZN6photon2fs11ICacheStore7preadv2EPK5iovecili.4:1', 'f__ZN6photon2fs11ICacheStore16try_refill_rangeElm.1:1']
+    for f in ('f__ZL8src_readPK5iovecil', 'f__ZL10media_readPK5iovecil', 'f__ZL11media_writePK5iovecil', 'f__ZL9c17_allocPvN7IOAlloc9RangeSizeEPS_',
+              'f__ZL10world_initv', 'f__ZL21check_media_invariantv', 'f__ZL19refill_guard_intactv', 'f_harness_read', 'f_harness_prefetch'):
+        L += ['%s.%d:%d' % (f, i, n) for i in range(16 if f.startswith('f_harness') else 8)]
+    # the RangeLock set holds at most one element: its search / iteration loops need 2 rounds
+    L += ['%s.%d:2' % (f, i) for f in ('f__ZN9RangeLock13try_lock_waitERmS0_', 'f__ZN9RangeLock6unlockEmm', 'inc', 'dec',
+          'f__ZNSt8_Rb_treeIN9RangeLock5RangeES1_St9_IdentityIS1_ESt4lessIS1_ESaIS1_EE29_M_get_insert_hint_unique_posESt23_Rb_tree_const_iteratorIS1_ERKS1_') for i in range(4)]
+    return L + list(extra)
+
+
+# memory-safety checks of the standard set (vlib CBMC_BASE) for the jobs that run them
+CHECKS = ['--pointer-overflow-check', '--undefined-shift-check', '--bounds-check', '--pointer-check', '--div-by-zero-check', '--pointer-primitive-check']
+
+
+def rjob(name, niov=1, srcmax=8, faults=0, nreads=1, runit=4, known=None, cap=(4, 0), rm=False, via_mutable=False, memchecks=False,
+         entry='harness_read', timeout=900, mem_gb=8, desc=''):
+    D = ['NIOV=%d' % niov, 'SRCMAX=%d' % srcmax, 'FAULTS=%d' % faults, 'NREADS=%d' % nreads, 'RUNIT=%d' % runit]
+    if cap != (32, 4): D += ['IOV_CAPACITY=%d' % cap[0], 'IOV_RESERVE=%d' % cap[1]]
+    if known is not None: D.append('KNOWN=%d' % known)
+    if rm: D.append('USE_RANGE_MODULE')
+    if via_mutable: D.append('MEDIA_VIA_MUTABLE')
+    b = 'source size 1..%d, page 4, refill unit %d, %d read(s) of %d segment(s) x 0..4 bytes at offset 0..%d, %s, IOVector capacity %d%s' % (
+        srcmax, runit, nreads, niov, srcmax + 1, 'symbolic faults' if faults else 'no faults', cap[0], ', memory-safety checks' if memchecks else '')
+    return Job(name, SRC, entry, defines=D, unwind=max(niov, 2) + 2, unwindset=us(cap[0], cap[1], srcmax), shims=SH, ir2c=IR2C, clang=CLANG,
+               nochecks=True, cbmc=(CHECKS if memchecks else []), timeout=timeout, mem_gb=mem_gb, desc=desc, bounds=b)
 
 
 def jobs(tier):
     q = tier == 'quick'
     J = []
-    J.append(Job('read_v2', SRC, 'harness_read', defines=['NIOV=2', 'FAULTS=0'], unwind=14, unwindset=['verif_memcpy_n.0:50'], shims=SH, ir2c=MAP, timeout=300, mem_gb=8,
-                 desc='one read', bounds=''))
+    J.append(rjob('read_v1', desc='one read, one segment'))
+    J.append(rjob('read_v2', niov=2, desc='one read, two segments'))
+    J.append(rjob('read_v2_known', niov=2, known=1, desc='one read, two segments'))
+    J.append(rjob('read_v2_unknown', niov=2, known=0, desc='one read, two segments'))
+    J.append(rjob('read_v3_known', niov=3, known=1, desc='one read, 3 segments'))
+    J.append(rjob('read_v1_s12', srcmax=12, desc='one read, one segment, 3 pages'))
+    J.append(rjob('read_v1_faults', faults=1, desc='one read, one segment, faults'))
+    J.append(rjob('prefetch', entry='harness_prefetch', desc='prefetch -> try_refill_range'))
     J.append(Job('hole_rangemodule', 'C17/h_hole.cpp', 'harness_rangemodule', defines=['NEXT=2'], unwind=6, shims=['libc.c', 'rbtree.c'], timeout=300, mem_gb=6, desc='RangeModule hole query', bounds=''))
     return J
